@@ -528,6 +528,40 @@ def run_history(case):
                 raised_between = True
             top = max([top] + ls)
             labels.add('constraint-pairs:' + a[4])
+        elif kind == 'refused':
+            # an insertion the library must refuse (literal 0, a string among the literals, an unknown operator):
+            # ValueError, and the formula is as it was: no row kept, no variable declared for it
+            rows_before = len(F)
+            big = [l for l in a[1] if l != 0] or [1]
+            how = a[0]
+            try:
+                if how == 'zero-literal':
+                    F.add_clause(big + [0])
+                elif how == 'string-literal':
+                    F.add_clause(big + ['x'])
+                elif how == 'parity-zero':
+                    F.add_parity(big + [0], 1)
+                elif how == 'cardinality-zero':
+                    F.cardinality_leq(big + [0], 1)
+                elif how == 'batch':
+                    F.add_clauses_from([big + [0]])
+                elif how == 'bad-operator' and case['cls'] == 'CNF':
+                    F.add_linear(big, '=>', 1)
+                elif how == 'bad-operator':
+                    F.add_constraint([(1, l) for l in big] + ['=>', 1])
+                elif case['cls'] == 'OPB':
+                    F.add_constraint([(1, l) for l in big] + [(2, 0), '>=', 1])
+                else:
+                    F.add_linear(big + [0], '>=', 1)
+                raise Violation("{}: accepted".format(what))
+            except ValueError:
+                pass
+            if len(F) != rows_before:
+                raise Violation("{}: refused with ValueError but {} row(s) stayed in the formula".format(what, len(F) - rows_before))
+            if F.number_of_variables() != before:
+                raise Violation("{}: refused with ValueError but the declared number of variables went from {} to {}".format(
+                    what, before, F.number_of_variables()))
+            labels.add('refused-insertion')
         elif kind == 'update_variable_number':
             F.update_variable_number(a[0])
             if a[0] > top:
@@ -572,7 +606,7 @@ def strat_history(draw):
     S = lambda lo, hi: draw(I(lo, hi))      # noqa
     for _ in range(nsteps):
         kind = draw(st.sampled_from(GROUP_OPS + ['add_clause', 'add_clause', 'add_clause_nocheck', 'builder_nocheck',
-                                                 'builder_check', 'update_variable_number', 'add_clauses_from', 'add_constraint']))
+                                                 'builder_check', 'update_variable_number', 'add_clauses_from', 'add_constraint', 'refused']))
         lits = draw(st.lists(st.integers(-40, 40), max_size=5))
         if kind == 'new_variable':
             ops.append([kind])
@@ -594,6 +628,8 @@ def strat_history(draw):
             ops.append([kind, n, draw(st.lists(st.sampled_from(P), unique_by=tuple)) if P else []])
         elif kind in ('add_clause', 'add_clause_nocheck'):
             ops.append([kind, lits])
+        elif kind == 'refused':
+            ops.append([kind, draw(st.sampled_from(['zero-literal', 'string-literal', 'parity-zero', 'cardinality-zero', 'batch', 'bad-operator', 'linear-zero'])), lits])
         elif kind == 'add_clauses_from':
             item = st.one_of(st.lists(st.integers(-40, 40), max_size=4), st.lists(st.integers(-40, 40), max_size=4),
                              st.just(['new_variable']), st.lists(I(0, 3), min_size=1, max_size=2).map(lambda d: ['new_block', d]))
@@ -620,6 +656,6 @@ SUBCHECKS = [
              rule="every sub-command of the catalogue through cnfgen (with -T chains) and pbgen built in-process; same structural oracle on the returned object",
              required_labels=['cnfgen', 'pbgen']),
     SubCheck('history', run_history, strategy=strat_history, quick=1500, thorough=60000,
-             rule="op logs (1..30 steps) on CNF and OPB: all eleven group constructors with generated shapes (empty groups included), add_clause(check=True) with arbitrary literals up to 40, add_clause(check=False) and check=False builders restricted to declared variables, checked builders, update_variable_number, add_clauses_from on lists and on lazy iterables that allot variables/blocks between two clauses, OPB add_constraint/add_constraints_from with (coefficient, literal) pairs given as tuples or as lists and all five operators; model: the largest identifier mentioned/allotted so far; after every step: new group contiguous and strictly above the model value, declared count never decreases and covers the model value; at the end the structural oracle + empty H1 record; non-trivial: >=2 group creations separated by an insertion that raised the count",
-             required_labels=GROUP_OPS + ['CNF', 'OPB', 'allot-inside-batch', 'constraint-pairs:list', 'constraint-pairs:tuple']),
+             rule="op logs (1..30 steps) on CNF and OPB: all eleven group constructors with generated shapes (empty groups included), add_clause(check=True) with arbitrary literals up to 40, add_clause(check=False) and check=False builders restricted to declared variables, checked builders, update_variable_number, add_clauses_from on lists and on lazy iterables that allot variables/blocks between two clauses, OPB add_constraint/add_constraints_from with (coefficient, literal) pairs given as tuples or as lists and all five operators, insertions that must be refused (literal 0, a string literal, an unknown operator, through add_clause / add_clauses_from / add_parity / cardinality_leq / add_linear / add_constraint: ValueError, no row kept, declared count unchanged); model: the largest identifier mentioned/allotted so far; after every step: new group contiguous and strictly above the model value, declared count never decreases and covers the model value; at the end the structural oracle + empty H1 record; non-trivial: >=2 group creations separated by an insertion that raised the count",
+             required_labels=GROUP_OPS + ['CNF', 'OPB', 'allot-inside-batch', 'constraint-pairs:list', 'constraint-pairs:tuple', 'refused-insertion']),
 ]
